@@ -85,7 +85,7 @@ TEXTS["C11"] = {
                   "rejection handlers) / whenAll / whenAllRange / whenAny / resolve / reject run on the real async.h; the "
                   "multiset of continuation outcomes must equal the reference's, nothing runs twice, nothing escapes. Further "
                   "exhaustive families: combinator sweep (1..4 inputs x pre-settled subsets x settle orders x outcomes), "
-                  "void-source chains, ownership (every subset of the chain's promise objects and the resolver dropped "
+                  "void-source chains, movable payloads (string / vector values, continuations before and after the fulfilment), ownership (every subset of the chain's promise objects and the resolver dropped "
                   "before the outcome arrives); and, with the controlled scheduler of C12, every schedule within the "
                   "preemption bound of two threads settling the inputs of whenAny / whenAll (plus a TSan pass).",
     "level_note": NOTE_A + "; what the property leaves open (derived promise after a non-rethrowing handler) is not compared",
@@ -94,8 +94,8 @@ TEXTS["C12"] = {
     "engine": "vsched", "design_ref": "DESIGN.md §4 C12",
     "technique": "stateless model checking of the real code: preemption-bounded DFS over all schedules of 2-3 real threads "
                  "gated at hook points in async.h, plus the same schedules under ThreadSanitizer",
-    "level_text": "Seventeen settle-vs-attach scenarios (root, derived one or two levels, void promises, pending inner promises, "
-                  "derived promises that already carry a continuation); every schedule with <=2 preemptions (thorough: <=3, and all schedules for "
+    "level_text": "Nineteen settle-vs-attach scenarios (root, derived one or two levels, void promises, pending inner promises, "
+                  "derived promises that already carry one continuation or a full list of two); every schedule with <=2 preemptions (thorough: <=3, and all schedules for "
                   "the 2-thread scenarios) is executed on the real Promise implementation and each continuation must run "
                   "exactly once with the settled outcome; TSan sees the same serialised schedules without happens-before "
                   "from the scheduler, so unsynchronised accesses are reported.",
@@ -128,7 +128,8 @@ TEXTS["C06"] = {
                  "event loop stepped deterministically through an interposed epoll_wait",
     "level_text": "Every (write list, issue schedule, answer plan) combination within the bounds is executed on the real "
                   "Tcp::Transport and reactor; the peer's byte stream, the settle count/value/time of every promise and "
-                  "liveness at quiescence are checked on each. Exhaustive within D and the size alphabet.",
+                  "liveness at quiescence are checked on each, also with the second write issued (and the transport flushed) by the "
+                  "completion of the first. Exhaustive within D and the size alphabet.",
     "level_note": NOTE_B,
 }
 TEXTS["C07"] = {
@@ -147,7 +148,8 @@ TEXTS["C08"] = {
     "engine": "vsched", "design_ref": "DESIGN.md §4 C08",
     "technique": "explicit enumeration of all client-event histories up to a depth bound against a real Http::Endpoint whose "
                  "threads are gated at epoll_wait under virtual time; invariants after every history",
-    "level_text": "All histories over connect / partial and whole requests / read / close / half-close / reset / tick, their composites, "
+    "level_text": "All histories over connect / partial and whole requests / read / close / half-close / reset / tick, their composites "
+                  "(incl. a connection reset or closed while still in the listen backlog, answers sent from an application thread), "
                   "write stalls, failing writes (ECONNRESET) and a vanished peer (read fails with ETIMEDOUT, no further event), "
                   "with handlers that answer at once, serve files, arm response time-outs or keep the response for later, "
                   "on 1..2 connections up to the depth bound are executed; handler call balance, "
